@@ -189,13 +189,14 @@ def prevStep (rd : Bool → Bytes → PRes Stored) (fam : Fam) (tid : Tid)
 def prev (rd : Bool → Bytes → PRes Stored) (fam : Fam) (tid : Tid) (h : List Call) : Option Stored :=
   h.foldl (prevStep rd fam tid) none
 
-/-- what a call returns after history `h`: its own thread's previous sample (or a fresh one
-    when there is none / the call blocks) compared with the newest sample -/
-def expected (rd : Bool → Bytes → PRes Stored) (cmp : Fn → Stored → Stored → PRes Val)
-    (h : List Call) (c : Call) : Out :=
+/-- what a call returns when the sample remembered for its thread (and function/variant) is
+    `ref`: `ref` (or a fresh first sample when there is none / it is an empty CPU list / the call
+    blocks) compared with the newest sample -/
+def expectedRef (rd : Bool → Bytes → PRes Stored) (cmp : Fn → Stored → Stored → PRes Val)
+    (ref : Option Stored) (c : Call) : Out :=
   if c.negative then .exc .valueError 0
   else
-    match (if c.blocking then none else usable (prev rd c.fam c.tid h)) with
+    match (if c.blocking then none else usable ref) with
     | some t1 =>
       match c.reads with
       | [] => .starved
@@ -222,6 +223,72 @@ def expected (rd : Bool → Bytes → PRes Stored) (cmp : Fn → Stored → Stor
               match cmp c.fn t1 t2 with
               | .error x => .exc x 2
               | .ok v => .ok v 2
+
+/-- what a call returns after history `h` (nothing remembered before `h`): its own thread's
+    previous sample (or a fresh one when there is none / the call blocks) compared with the
+    newest sample -/
+def expected (rd : Bool → Bytes → PRes Stored) (cmp : Fn → Stored → Stored → PRes Val)
+    (h : List Call) (c : Call) : Out :=
+  expectedRef rd cmp (prev rd c.fam c.tid h) c
+
+/-! ### "since last call **or module import**" -/
+
+/-- what importing the module leaves behind: the importing thread `tid0` has taken one sample of
+    each variant (`r0` = `/proc/stat` when the system-wide sample was taken, `r1` when the per-CPU
+    one was), shared by both functions; a sample that could not be taken is simply absent; no
+    other thread has any -/
+def importSample (rd : Bool → Bytes → PRes Stored) (tid0 : Tid) (r0 r1 : Bytes)
+    (fam : Fam) (tid : Tid) : Option Stored :=
+  if tid = tid0 then (rd fam.percpu (if fam.percpu then r1 else r0)).toOption else none
+
+/-- the sample thread `tid` last took through `fam`, when `init` is what it had before `h` -/
+def prevFrom (rd : Bool → Bytes → PRes Stored) (init : Option Stored) (fam : Fam) (tid : Tid)
+    (h : List Call) : Option Stored :=
+  h.foldl (prevStep rd fam tid) init
+
+/-- what a call returns after the module was imported by `tid0` and history `h` followed -/
+def expectedSinceImport (rd : Bool → Bytes → PRes Stored) (cmp : Fn → Stored → Stored → PRes Val)
+    (tid0 : Tid) (r0 r1 : Bytes) (h : List Call) (c : Call) : Out :=
+  expectedRef rd cmp (prevFrom rd (importSample rd tid0 r0 r1 c.fam c.tid) c.fam c.tid h) c
+
+/-! ### threads versus thread identifiers
+
+In a history `Call.tid` can be read as *who* calls (the thread). The code, however, files a
+sample under `threading.current_thread().ident`, a number the interpreter may hand out again once
+a thread has ended. `ident` below is that assignment. -/
+
+/-- the call as the code sees it: filed under the caller's identifier -/
+def reTid (ident : Tid → Tid) (c : Call) : Call := { c with tid := ident c.tid }
+
+/-- no two threads that call in `h` or in `c` share an identifier -/
+def IdentInjectiveOn (ident : Tid → Tid) (h : List Call) (c : Call) : Prop :=
+  ∀ a ∈ c :: h, ∀ b ∈ c :: h, ident a.tid = ident b.tid → a.tid = b.tid
+
+/-- threads that share an identifier never overlap in time: once another thread with the same
+    identifier has called (position `j`), the earlier one (position `i`) has ended and never
+    calls again -/
+def DisjointLifetimes (ident : Tid → Tid) (h : List Call) : Prop :=
+  ∀ (i j k : Nat) (_ : i < j) (_ : j < k) (hk : k < h.length),
+    ident (h[i]'(by omega)).tid = ident (h[j]'(by omega)).tid →
+    (h[i]'(by omega)).tid ≠ (h[j]'(by omega)).tid → (h[k]'hk).tid ≠ (h[i]'(by omega)).tid
+
+/-! ### per-CPU results when the number of CPUs changes between two samples -/
+
+/-- `percpu=True`: one percentage per CPU that is present in BOTH samples, in kernel order, each
+    from that CPU's own two records; CPUs present in only one of the samples are not reported
+    (CPU numbering is taken as the position in the list) -/
+def perCpuPercent (nf : Nat) : List Times → List Times → List Rat
+  | o :: os, n :: ns => percent nf o n :: perCpuPercent nf os ns
+  | _, _ => []
+
+/-! ### the tokens a kernel prints -/
+
+/-- `%llu` as the kernel prints it (`seq_put_decimal_ull`): a non-empty string of ASCII decimal
+    digits without a leading zero, except for the number zero itself -/
+def isKernelTok : Bytes → Bool
+  | [] => false
+  | [d] => isDigit d
+  | d :: rest => isDigit d && decide (d ≠ 48) && rest.all isDigit
 
 /-! ## `Process.cpu_percent` -/
 
